@@ -222,6 +222,7 @@ struct session {
 	int in_flush;             /* app is inside bufferevent_flush(mode != NORMAL) */
 	int strict;               /* forward stream: EOF must follow the last byte */
 	int use_wm;
+	int pair_flush_partial;   /* a BEV_FINISHED flush over a pair moved some but not all pending bytes */
 	int tls_retry_hazard;     /* data was appended to a TLS bev's output while its last SSL write was blocked */
 	int ended;                /* stop the session (violation found / terminal) */
 	long steps;
@@ -523,7 +524,6 @@ static void mon_in_cb(struct evbuffer *buf, const struct evbuffer_cb_info *info,
 		}
 	}
 	if (top) {
-		ep->rd_reenabled = 0; ep->rwm_changed = 0; ep->rflushed = 0;
 		if (len > ep->r_max_win) ep->r_max_win = len;
 		if (len >= bev->wm_read.low && (bev->enabled & EV_READ) && !ep->in_rflush && bev->readcb)
 			ep->r_expect_cb = 1;
@@ -550,7 +550,6 @@ static void mon_out_cb(struct evbuffer *buf, const struct evbuffer_cb_info *info
 		return;
 	}
 	if (info->n_deleted) {
-		ep->wr_reenabled = 0;
 		if (len < ep->w_min_win) ep->w_min_win = len;
 		if (len <= bev->wm_write.low && bev->writecb) ep->w_expect_cb = 1;
 	}
@@ -772,7 +771,7 @@ static void app_eventcb(struct bufferevent *bev, short what, void *arg)
 			if (u->wm_read.high && evbuffer_get_length(u->input) >= u->wm_read.high && q > 0) full = 1;
 		}
 		eof_cause = !(ep->top->enabled & EV_READ) || s->b_disabled_at_shut ?
-		    ((hi && il == hi && ep->L[ep->nl - 1].kind == LK_PAIR) ? "-rd-disabled-filled-to-high-watermark" : "-rd-disabled") : full ? "-at-high-watermark" : "";
+		    (s->pair_flush_partial ? "-rd-disabled-pair-flush-partial" : "-rd-disabled") : full ? "-at-high-watermark" : "";
 	}
 	consume(ep, (size_t)-1);   /* whatever was delivered is in the input buffer now */
 	D = ep->consumed; W = peer(ep)->written;
@@ -1349,7 +1348,11 @@ static void check_liveness(struct session *s, const char *where, int st)
 		const char *blk = NULL;
 		size_t inlen = R->freed ? 0 : evbuffer_get_length(R->top->input);
 		delivered = R->consumed + inlen;
-		if (W->written <= delivered) continue;
+		if (W->written <= delivered) {
+			/* everything arrived: whatever the application did before is no longer a witness */
+			R->rd_reenabled = R->rwm_changed = R->rflushed = 0; W->wr_reenabled = 0;
+			continue;
+		}
 		if (R->freed || W->freed) blk = "freed";
 		else if (R->n_term_rd || W->n_term_wr || R->n_term_wr || reset_fired) blk = "error/eof reported";
 		else if (s->shut_started && dir == 0 && !s->strict) blk = "abrupt shutdown";
@@ -1635,8 +1638,14 @@ static void shutdown_phase(struct session *s)
 		expect_term = 1; break;
 	case SM_FREE_DRAINED: case SM_FREE_PENDING:
 		ep_free(A); expect_term = sock; break;
-	case SM_FINISHED_FLUSH:
+	case SM_FINISHED_FLUSH: {
+		size_t before = 0, after;
+		int j;
+		for (j = 0; j < A->nl; j++) before += evbuffer_get_length(A->L[j].bev->output);
 		act_flush(A, EV_WRITE, BEV_FINISHED);
+		after = A->freed ? 0 : evbuffer_get_length(A->L[0].bev->output);
+		if (!sock && after && after < before) { s->pair_flush_partial = 1; vh_stat("pair_finished_flush_partial"); }
+		}
 		if (sock) {
 			int i;
 			if (b_off) { settle(s, "finished-flush"); if (!B->n_term_rd) app_enable(B, EV_READ); b_off = 0; }
